@@ -183,6 +183,7 @@ def run_case(case, tier, known):
     if not any_cover:
       res["cover"] = "vacuous"
     budget = float(os.environ.get("PYVC_CASE_BUDGET_S", "300" if tier == "quick" else "1500"))
+    res["deadline"] = t0 + budget
     for cname in clause_names:
       if time.time() - t0 > budget:
         # wall-clock budget of the case exhausted: the remaining clauses stay undecided (never a violation)
@@ -228,6 +229,10 @@ def _run_clause(case, cname, per_path, timeout, known_entries, res):
   out = {"kind": None, "status": "discharged", "vcs": 0, "seconds": 0.0, "solvers": {},
          "witness": None, "model_raw": None, "reason": "", "known": [], "path": None, "probe": None}
   for p, s in per_path:
+    if time.time() > res.get("deadline", float("inf")) and out["status"] != "failed":
+      out["status"] = "unknown"
+      out["reason"] += " case wall-clock budget exhausted before every path of this clause was examined"
+      break
     if s is None:
       kind, g = out["kind"] or "claim", z3.BoolVal(False)
       vars_, hints = {}, []
